@@ -280,7 +280,7 @@ def run(family, w, unchecked):
 def tasks(tier):
     out = []
     P = ('C01', 'C02', 'C03', 'C04', 'C05', 'C08', 'C10', 'C15', 'C16')
-    for w in ((2,) if tier == 'quick' else (2, 3, 4, 8)):
+    for w in ((2,) if tier == 'quick' else (2, 3, 4)):          # w = 8: see DESIGN 16.10
         for unchecked in ((False, True) if tier == 'thorough' else (False,)):
             for fam in FAMILIES:
                 out.append(task(MOD, 'run', P, label=f'stmt/{fam}/w{w}/u{int(unchecked)}', cost=15, family=fam, w=w, unchecked=unchecked))
